@@ -654,7 +654,7 @@ def deriv_builder(T, rng):
     if k == 9:
         return ufl.nabla_grad(g.vec(d))[a, b], ()
     if k == 10:
-        return ufl.curl(g.vec(d)), ()
+        return ufl.curl(g.vec(d) + T.x), ()     # (+x: curl of a list tensor with a literal entry is C03's finding)
     return ufl.grad(g.u(d))[a] * g.u(1) + g.u(d).dx(b), ()
 
 
